@@ -22,6 +22,34 @@ CHECKS = {
          "Every jitter value 0..249 (the whole range of the only random choice) x configuration (subtype, IP families, 1-2 interfaces, second service sharing the host at offsets) is executed on the real daemon; three probes 250 ms apart with the proposed records, silence before, two complete announcements 1 s apart, Announce events, bounded time to announce.", S_NOTE),
  "C09": ("S", "model_checking", "7 C09", "breadth-first exploration of all register / re-register / conflict / unregister / idle / shutdown sequences to depth 4-5 on the real daemon (3 interface layouts), states de-duplicated on a canonical dump; goodbye packets compared with what the wire shows was announced",
          "All event sequences to the stated depth are executed on the real daemon; the unregister reply, the goodbye on each interface/family where the wire shows the service was announced (same names, TTL 0, repeated once after ~120 ms), no goodbye elsewhere, and silence afterwards are checked on every history.", S_NOTE),
+ "C03": ("S", "model_checking", "7 C03", "breadth-first exploration of all response-packet / time sequences to depth 4-5 from an 18-event responder menu on the real browsing daemon (lock-step, virtual clock), states de-duplicated on a canonical dump; every ServiceResolved compared with a reference record store",
+         "All histories to the stated depth over announcements of two instances sharing a host (TTL 2/10/120), updates (new port/TXT/address with cache-flush), extra address, address on a second interface, goodbyes, PTR-only, verify and idles; every field of every ServiceResolved must come from a record that the reference store (TTL, goodbye, cache-flush >1 s rule) says is live at the event time, tagged with an interface a live copy arrived on.", S_NOTE),
+ "C04": ("S", "model_checking", "7 C04", "exhaustive enumeration of all 75 ordered set-partitions of an instance's record set into packets x placement x duplication x foreign material x gap x name shape x type/subtype browse; all single losses answered by a scripted label-exact responder; plus breadth-first exploration of the shared browse menu with a completeness oracle",
+         "Every ordered set-partition of {PTR,SRV,TXT,A} into packets with the listed variations (64,800 histories) must end with ServiceFound then ServiceResolved with the right content within the delivering step; after any single lost packet the daemon's own follow-up queries (names, timing) are answered by an independent responder and must lead to resolution; BFS histories check 'complete by the reference store implies reported in this step'.", S_NOTE),
+ "C05": ("S", "model_checking", "7 C05", "breadth-first exploration of announcement / goodbye / update / verify / silence histories to depth 4-5 on the real browsing daemon; every ServiceRemoved and every lapse of completeness compared with the reference record store",
+         "Same event menu as C03 with a removal oracle: a ServiceRemoved is never sent while PTR, SRV and an address all have more than 1 s left by the reference store; whenever a reported instance loses its last live PTR / SRV / address (TTL, goodbye+1 s, cache-flush+1 s, verify deadline) a ServiceRemoved is on the channel at that moment (1 s early tolerated); no ServiceResolved after a removal without new records.", S_NOTE),
+ "C08": ("L+S", "model_checking", "7 C08", "bounded-exhaustive enumeration of all ordered pairs of small record sets through the real Probe::tiebreaking (both directions, sorted and reversed wire order) and of rename inputs; exhaustive grid of start offsets x jitters for two real daemons on a simulated link, three daemons, and scripted conflicts at every probe step",
+         "Antisymmetry and RFC order of the tiebreak on all pairs of sets of <= 2/3 records from a 12-record menu; rename functions on boundary names; two daemons with the same names at every offset 0..3000 ms (50/10 ms grid) x 9 jitter pairs must end with exactly one holder of the original names, all announced, consistent names in every later packet (answers to every question type, goodbye); scripted conflicts after each probe for 5 name shapes.", S_NOTE),
+ "C10": ("L+S", "model_checking", "7 C10", "exhaustive enumeration of (record type x responder TTL x known-answer TTL x same/different owner, class, RDATA x flush bit) through the real suppressed_by_answer; on a live daemon every question x every assignment of {absent, 7 TTLs} to 4 records as known answers; every query sent over a cached record's life for every TTL in a range",
+         "Predicate level: 2240 combinations around the half-TTL boundary. Responder: 7 questions x 4096 known-answer assignments x flush-bit convention x layout on one live announced service: absent iff a listed copy has TTL above half, present otherwise, a suppressed PTR sends nothing. Querier: for every TTL 2..20 (40) all queries over the record's life list only shared records younger than half life with the remaining TTL, on every interface.", S_NOTE),
+ "C11": ("L+S", "model_checking", "7 C11", "exhaustive enumeration of every TTL 1..600 (20000) x every ordered subset of <= 3 boundary instants x fresh-copy position through the real DnsRecord lifetime functions under a thread clock; daemon-level enumeration of TTL x answered-marks patterns and of cache-flush gap/bit/interface combinations",
+         "Component: is_expired / halflife / refresh_maybe on every TTL up to the bound (plus 2^16, 2^24, 2^31-1, 2^32-1) for every observation sequence over the marks: never expired early, at most one refresh per mark, none at/after expiry, a newly passed mark fires, a fresh copy restarts. Daemon: refresh questions exactly at unanswered marks, removal at TTL, displaced addresses removed exactly 1 s after a flush that is > 1 s younger, on the same interface only.", S_NOTE),
+ "C12": ("S", "model_checking", "7 C12", "exhaustive enumeration of all event sequences to depth 2-3 over 23 API calls / packets / interface changes / idles on the real daemon, each executed twice - self-timed and woken every virtual millisecond - and compared (differential oracle), plus spin counters",
+         "Every history is run self-timed (woken only when the daemon asked) and densely (every ms); since the loop re-tests all time conditions each iteration, equal observable logs mean every piece of time-driven work had a wake-up no later than its due time. Spin: never more than 3 quiet iterations asking for <= now+1 ms, at most 20 iterations per silent second.", S_NOTE),
+ "C13": ("S", "model_checking", "7 C13", "breadth-first exploration of all browse / browse again / browse_cache / stop / resolve_hostname (timeouts, letter cases) / stop / shutdown / packet / idle sequences to depth 4-5, followed by 2 h of silent virtual time; channel automata and wire checked on every history",
+         "Per receiver: first event SearchStarted, Found before Resolved, exactly one SearchStopped at stop / timeout (after SearchTimeout) / shutdown and nothing after; no PTR question for a stopped type and no A/AAAA question for a stopped host name for 2 virtual hours; cache counters zero right after stop_browse; a cache-only browse never causes a query.", S_NOTE),
+ "C14": ("S", "model_checking", "7 C14", "exhaustive enumeration of the position of shutdown among 1-2 (3) commands of every kind x every split of the queue into loop iterations x one further call in each of four exit-path windows (park points), on the real daemon and real channels; undrained-channel deviation explored separately",
+         "For every command kind (16), every position of shutdown, every batching and every exit window with calls from a second handle clone: the shutdown caller gets Shutdown, clean-up effects (goodbye, SearchStopped) happen exactly once, after the end every call fails with DaemonShutdown and status() is Shutdown, and every reply receiver ever handed out holds a value or is closed; the blocking get_ip_check_interval returns.", S_NOTE + " Client calls are treated as atomic with respect to the gate/exit park points (argument in DESIGN.md C14)."),
+ "C15": ("W+S", "exploration", "7 C15", "bounded-exhaustive enumeration of a boundary-string grammar x every public function taking a name, extreme numeric arguments, and hostile label shapes x every name position in packets, each followed by deferred work in virtual time and a liveness probe of the real daemon",
+         "3472 (function, string) cases from 51 base strings x suffix variants, 13 numeric extremes, 104 (hostile label shape, name position) packets: no panic in the caller (catch_unwind), the daemon thread has not ended, status() is Running and a fresh browse still resolves an announcement.", S_NOTE),
+ "C17": ("S", "model_checking", "7 C17", "breadth-first exploration of all resolve_hostname / stop / address-record / goodbye / flush / idle sequences to depth 4-5 on the real daemon (2 interfaces), the client's view compared with a reference store after every step",
+         "After every step and every second of a 13 s horizon the set (name spelling, address, interface) folded from AddressesFound/AddressesRemoved equals the live records of the reference store (TTL, goodbye, cache-flush rule, per interface); A and AAAA asked at once; SearchTimeout then SearchStopped exactly at start+timeout; no question for the name while no search is open.", S_NOTE),
+ "C18": ("S", "model_checking", "7 C18", "exhaustive enumeration of all enable/disable selection sequences to depth 3-4 over 10 selection kinds on a 3-interface + loopback topology (plus an interface appearing later), of service address sets against subnets, and of interface removal / disabling events, on the real daemon",
+         "The interfaces and IP families a browse uses equal the selections folded in call order (last match wins), also for an interface that appears later; every packet naming a service leaves only on interfaces sharing a subnet with it and carries only in-subnet addresses; after an interface disappears instances learned only there are removed, others re-resolved without the lost address, IpAdd/IpDel match the change.", S_NOTE),
+ "C19": ("S", "model_checking", "7 C19", "exhaustive enumeration of all (operation, offset) sequences to depth 2-3 over 10 search operations x 4 offsets on the real daemon, each observed for 3 virtual days; query times per question compared with the closed-form schedule",
+         "Per question (two types, one host name): observed query times minus the schedule start+{0,1,3,7,...} with steps capped at 3600 s minus the exempt refreshes the harness can name must be empty, and no scheduled query may be missing, over 3 days of virtual time.", S_NOTE),
+ "C20": ("S", "model_checking", "7 C20", "exhaustive enumeration of all sequences to depth 2-3 over 8 traffic generators and 9 API calls on the real daemon, observed through get_metrics before/after each generator, after the longest TTL and one virtual hour later",
+         "No cached record while nothing asked for it, growth bounded by need while searching, every cached-* counter zero and at most one timer after all TTLs and one more hour, timers not growing with repeated identical traffic; three design-level findings are recorded as known.", S_NOTE),
  "C16": ("W", "exploration", "7 C16", "bounded-exhaustive enumeration of TXT property lists (<= 3-4 entries over boundary keys/values) through every input type and of all byte strings up to length 8-9 over 7 bytes into the decoder; end-to-end subset through two simulated daemons",
          "Every list up to 3 (quick) / 4 (thorough) entries over keys/values at the 0/1/254/255/256 boundaries, through 5 input types: refusal exactly when unrepresentable, otherwise wire strings <= 255 bytes and equal round trip (order, case, none-vs-empty, first duplicate wins); every byte string up to length 8/9 over a 7-byte alphabet decodes without panic to properties that are in the record; all short entries and pairs registered on daemon A arrive equal at a browsing daemon B.", W_NOTE),
 }
